@@ -35,6 +35,8 @@ pub fn gen_doc(lang: &str, n: usize) -> (Vec<u8>, Vec<usize>) {
         // four large groups (the fork at a group header is resolved inside the following large body); the edited tokens
         // are the numbers of the entries
         "groups" => { let per = (n / 16).max(1); for gi in 0..4 { s.push_str(if gi % 2 == 0 { "first 7 {+\n" } else { "second 7 {-\n" }); for e in 0..per { edit_at.push(s.len() + 6); s.push_str(&format!("key = {};\n", 10 + e % 80)); } s.push_str("}\n"); } }
+        // identifier-first statements: the first leaf of every statement is the word token
+        "stmts_calls" => { while i * 7 < n { let a = names[i % 5]; edit_at.push(s.len() + a.len() + 1 + names[(i + 1) % 5].len() + 2); s.push_str(&format!("{}({}, {});\n", a, names[(i + 1) % 5], 10 + i % 80)); i += 1; } }
         "lookfar" => { while i * 6 < n { edit_at.push(s.len()); s.push_str(&format!("{} bc-a! a-bc bc\n", names[i % 5])); i += 1; } }
         "pstring" => { while i * 6 < n { edit_at.push(s.len() + 2); s.push_str(&format!("%({}(b)c) w {}\n", names[i % 5], i % 77)); i += 1; } }
         _ => {}
@@ -68,6 +70,10 @@ pub fn measure(parser: &mut Parser, old_text: &[u8], old_tree: &tree_sitter::Tre
     Some(Measure { lexed: lexed_count, bytes_read: bytes, shared_frac: shared as f64 / nx.nodes.len() as f64, new_nodes: nx.nodes.len() })
 }
 
+/// document families are named after their zoo language, except `stmts_calls` (stmts documents made of statements that
+/// BEGIN with an identifier, i.e. with the `word` token)
+pub fn zoo_of(label: &str) -> &str { if label == "stmts_calls" { "stmts" } else { label } }
+
 /// thresholds: (max lexed tokens, max bytes read, min shared fraction at N >= 1000)
 pub fn thresholds(lang: &str) -> (usize, usize, f64) {
     match lang {
@@ -79,6 +85,11 @@ pub fn thresholds(lang: &str) -> (usize, usize, f64) {
         "pstring" => (60, 4096, 0.34),
         // four large groups with a GLR fork at each header: measured 15 tokens, 320 bytes, 0.776..0.80 shared at every size
         "groups" => (60, 4096, 0.55),
+        // identifier-first statements in a grammar with a `word` token: on the reference tree every statement's first token is
+        // lexed again on every re-parse (measured: N/7 tokens = one per statement, half of the nodes shared, at every size),
+        // and with a 64-byte read callback that touches nearly all of the text. The bounds for this family are therefore
+        // relative: at most N/4 tokens, at least 35% of the nodes shared; the byte bound is not meaningful here.
+        "stmts_calls" => (usize::MAX, usize::MAX, 0.35),
         "lexla" => (60, 4096, 0.0), // every node is a leaf below a re-built repeat node: identity sharing is not asserted
         _ => (60, 4096, 0.3),
     }
@@ -91,13 +102,15 @@ pub fn worker(ctx: &Ctx, res: &mut ShardResult) {
     // `indent` is deliberately not in the calibrated set: on the reference tree its zero-width scanner tokens make the
     // re-parse lex everything after the edit (measured: all of N tokens), so no meaningful regression bound exists for it.
     // Likewise `glr`: with several stack versions alive the parser does not reuse nodes at all (measured: 80% of N lexed).
-    for lname in ["stmts", "arith", "jsonish", "pstring", "lexla", "groups"] {
-        let z = crate::zoo::by_name(lname).unwrap();
+    for lname in ["stmts", "arith", "jsonish", "pstring", "lexla", "groups", "stmts_calls"] {
+        let z = crate::zoo::by_name(zoo_of(lname)).unwrap();
         let info = build_info(&z);
-        let (max_lexed, max_bytes, min_shared) = thresholds(lname);
+        let (max_lexed_abs, max_bytes_abs, min_shared) = thresholds(lname);
         let mut worst_by_size: Vec<(usize, usize, usize, f64)> = vec![];
         for &n in &sizes {
             let (doc, edit_at) = gen_doc(lname, n);
+            // `stmts_calls`: bounds relative to the document (see thresholds())
+            let (max_lexed, max_bytes) = if lname == "stmts_calls" { (n / 4, doc.len() + 4096) } else { (max_lexed_abs, max_bytes_abs) };
             let mut parser = Parser::new();
             parser.set_language(&info.language).unwrap();
             let tree = parser.parse(&doc, None).unwrap();
@@ -149,7 +162,7 @@ pub fn worker(ctx: &Ctx, res: &mut ShardResult) {
 pub fn replay(case: &Value) -> Vec<String> {
     let case = if case.get("kind").and_then(|k| k.as_str()) == Some("crash") { &case["case"] } else { case };
     let (Some(lname), Some(n), Some(pos)) = (case["lang"].as_str(), case["n"].as_u64(), case["pos"].as_u64()) else { return vec![format!("not a single-measurement case (the growth rule compares whole sizes): rerun ./vf check C12 quick ({})", case)] };
-    let Some(z) = crate::zoo::by_name(lname) else { return vec![format!("unknown language {}", lname)] };
+    let Some(z) = crate::zoo::by_name(zoo_of(lname)) else { return vec![format!("unknown language {}", lname)] };
     let info = build_info(&z);
     let (doc, _) = gen_doc(lname, n as usize);
     let mut parser = Parser::new();
@@ -158,6 +171,7 @@ pub fn replay(case: &Value) -> Vec<String> {
     let old_ids: HashSet<usize> = XTree::build(&tree).nodes.iter().map(|x| x.id).collect();
     let Some(m) = measure(&mut parser, &doc, &tree, &old_ids, pos as usize) else { return vec!["the edit produced an error tree".into()] };
     let (max_lexed, max_bytes, min_shared) = thresholds(lname);
+    let (max_lexed, max_bytes) = if lname == "stmts_calls" { (n as usize / 4, doc.len() + 4096) } else { (max_lexed, max_bytes) };
     println!("lexed {} (threshold {}), bytes read {} (threshold {}), shared fraction {:.3} (threshold {:.2}), {} nodes", m.lexed, max_lexed, m.bytes_read, max_bytes, m.shared_frac, min_shared, m.new_nodes);
     let mut msgs = vec![];
     if m.lexed > max_lexed { msgs.push(format!("too-many-tokens-relexed: {} > {}", m.lexed, max_lexed)); }
